@@ -4,7 +4,7 @@ import stat
 import time
 import typing
 
-from pygopherd import gopherentry, handlers
+from pygopherd import GopherExceptions, gopherentry, handlers
 from pygopherd.handlers.base import BaseHandler
 
 
@@ -49,13 +49,19 @@ class DirHandler(BaseHandler):
         for file in self.files:
             # We look up the appropriate handler for this object, and ask
             # it to give us an entry object.
-            handler = handlers.HandlerMultiplexer.getHandler(
-                self.selectorbase + "/" + file,
-                self.searchrequest,
-                self.protocol,
-                self.config,
-                vfs=self.vfs,
-            )
+            try:
+                handler = handlers.HandlerMultiplexer.getHandler(
+                    self.selectorbase + "/" + file,
+                    self.searchrequest,
+                    self.protocol,
+                    self.config,
+                    vfs=self.vfs,
+                )
+            except GopherExceptions.FileNotFound:
+                # Nothing can serve this one (dangling symlink, socket, FIFO,
+                # vanished since the listdir, name rejected by the security
+                # check).  Leave it out rather than failing the whole menu.
+                continue
             fileentry = handler.getentry()
             self.prep_entriesappend(file, handler, fileentry)
 
